@@ -15,6 +15,7 @@ import (
 	"net/http/httptest"
 	"net/url"
 	"runtime"
+	"sort"
 	"strconv"
 	"strings"
 	"sync"
@@ -103,11 +104,17 @@ func panicValue(kind string) any {
 		return (*payloadStruct)(nil)
 	case "bytes":
 		return []byte("raw bytes")
+	case "wrapabort": // not the sentinel itself: only http.ErrAbortHandler is excluded by the statement
+		return fmt.Errorf("copy failed: %w", http.ErrAbortHandler)
+	case "joinabort":
+		return errors.Join(errors.New("first"), http.ErrAbortHandler)
+	case "aborttext":
+		return errors.New(http.ErrAbortHandler.Error())
 	}
 	return nil // "nil": panic(nil) → *runtime.PanicNilError
 }
 
-var pvKinds = []string{"string", "error", "wrapped", "int", "struct", "pointer", "nilptr", "bytes", "nil"}
+var pvKinds = []string{"string", "error", "wrapped", "int", "struct", "pointer", "nilptr", "bytes", "nil", "wrapabort", "joinabort", "aborttext"}
 
 // recovered value as the Relay sees it
 func recoveredValue(kind string) any {
@@ -629,9 +636,23 @@ func runCase(cs Case, st *stats) (key, expected, observed string) {
 				return "tid-dup:" + tag, "request ids pairwise distinct", r.tid
 			}
 			seen[r.tid] = true
+			// the key-less nano format is judged by suffix, so one rendering can be a suffix of
+			// another ("net/http: abort Handler" of "copy failed: net/http: abort Handler"): try the
+			// longest rendering first, which is the only one that can be meant
+			pvs := make([]string, 0, len(left))
+			for pv := range left {
+				pvs = append(pvs, pv)
+			}
+			sort.Slice(pvs, func(i, j int) bool {
+				a, b := fmt.Sprint(recoveredValue(pvs[i])), fmt.Sprint(recoveredValue(pvs[j]))
+				if len(a) != len(b) {
+					return len(a) > len(b)
+				}
+				return pvs[i] < pvs[j]
+			})
 			matched := false
-			for pv, n := range left {
-				if n > 0 && wantPanicMatches(cs.Kind, pv, r) == "" {
+			for _, pv := range pvs {
+				if left[pv] > 0 && wantPanicMatches(cs.Kind, pv, r) == "" {
 					left[pv]--
 					matched = true
 					break
@@ -663,7 +684,7 @@ type mon struct{}
 func (mon) Name() string { return "relay" }
 
 func (mon) Level(string) (string, string) {
-	return "exploration", "requests whose handler behaviour is encoded in the URI (status 200..599 set once or not at all, body or not, panic before / after header / after body / none, nine panic value kinds incl. error, wrapped error, typed-nil pointer, panic(nil), []byte; matched and unmatched routes) sent (1) over real loopback HTTP connections to an http.Server running Mux+Relay and (2) through ServeHTTP with a recorder (odd RemoteAddr forms, unknown methods), with 1, 8 and 64 requests in flight, for all three log handlers at thresholds Info, Error and Fatal. Every Write on the log destination is parsed as one record; records are joined with the client's log by request id: exactly one REQ_BEG and REQ_END with the request's method/URI/ip/id, END code == status on the wire, 500 iff panic before any write, one Error record with the panic value iff the handler panicked, no panic escaping Relay. Full behaviour product sequentially + seeded concurrent batches; -race build. distinct_nontrivial = distinct (handler, threshold, path, behaviour) combinations observed"
+	return "exploration", "requests whose handler behaviour is encoded in the URI (status 200..599 set once or not at all, body or not, panic before / after header / after body / none, twelve panic value kinds incl. error, wrapped error, errors wrapping / joining / textually equal to http.ErrAbortHandler, typed-nil pointer, panic(nil), []byte; matched and unmatched routes) sent (1) over real loopback HTTP connections to an http.Server running Mux+Relay and (2) through ServeHTTP with a recorder (odd RemoteAddr forms, unknown methods), with 1, 8 and 64 requests in flight, for all three log handlers at thresholds Info, Error and Fatal. Every Write on the log destination is parsed as one record; records are joined with the client's log by request id: exactly one REQ_BEG and REQ_END with the request's method/URI/ip/id, END code == status on the wire, 500 iff panic before any write, one Error record with the panic value iff the handler panicked, no panic escaping Relay. Full behaviour product sequentially + seeded concurrent batches; -race build. distinct_nontrivial = distinct (handler, threshold, path, behaviour) combinations observed"
 }
 
 type shardArgs struct {
